@@ -1,298 +1,1000 @@
-"""C07 reviewed table: raising sites that neither a handler nor a guard idiom discharges, each read once.
+"""C07 reviewed roles: raising sites that neither a handler nor a guard idiom discharges, each read once.
 
-An entry names the function, a substring of the normalised expression, the modelled exception, a one-line reason,
-and - where the reason depends on other code - a *premise* that is re-checked structurally on every run (a premise
-that no longer holds turns the entry into a violation at the raising site).
+A reviewed line no longer names a function and an expression text.  It names a ROLE: the modelled exception, the kind
+of operation and what the operand IS, found through data flow (reaching definitions, local renames, parameter binding
+to the call sites on the escaping chain, return values of private helpers: wzsa/effects.py ``Flow``).  Where the reason
+depends on other code the *premise* is re-established on the code as it is shaped now, across a caller / helper
+boundary if need be.  A role answers
+
+* ``None``            - this site does not play the role (the site stays unreviewed: reported, fail-closed);
+* ``(True, why)``     - the role applies and its premise holds;
+* ``(False, why)``    - the role applies, the code shape is understood and the premise is false (violation);
+* raises AnalysisError - the role applies but the anchor of its premise has a shape that is not understood (exit 2).
 """
 
 from __future__ import annotations
 
 import ast
 import re
+import typing as t
 
 from .. import astq
 from ..cfg import cfg_of
-from ..fold import RegexConst, classes_in, group_width, width
-from ..loader import dotted, norm
+from ..effects import INF, Effects, Flow, Site, St, const_int, satoms
+from ..fold import Folder, RegexConst, class_of_items, sre_c
+from ..guards import canon, simulate
+from ..loader import AnalysisError, ClassInfo, FuncInfo, dotted, norm, walk_no_nested
 
-REVIEWED: list[dict] = [
-    # -- input model: environ text is latin-1 -------------------------------------------------------------------
-    {"func": "http.parse_cookie", "expr": "cookie.encode('latin1')", "exc": "UnicodeEncodeError", "reason": "receiver is environ / header text, latin-1 by the WSGI contract (input model)"},
-    {"func": "_internal._wsgi_decoding_dance", "expr": ".encode('latin1')", "exc": "UnicodeEncodeError", "reason": "receiver is environ text, latin-1 by the WSGI contract (input model)"},
-    {"func": "wrappers.request.Request.__init__", "expr": ".encode('latin1')", "exc": "UnicodeEncodeError", "reason": "QUERY_STRING is environ text, latin-1 by the WSGI contract (input model)"},
-    {"func": "wsgi.get_current_url", "expr": ".encode('latin1')", "exc": "UnicodeEncodeError", "reason": "environ text, latin-1 by the WSGI contract (input model)"},
-    {"func": "wsgi.get_path_info", "expr": ".encode('latin1')", "exc": "UnicodeEncodeError", "reason": "environ text, latin-1 by the WSGI contract (input model)"},
-    # -- server / application controlled -------------------------------------------------------------------------
-    {"func": "sansio.utils.get_host", "expr": "server[0]", "exc": "IndexError", "reason": "`server` is the (SERVER_NAME, SERVER_PORT) pair built by the wrapper, server-controlled (input model)"},
-    {"func": "sansio.utils.get_host", "expr": "server[1]", "exc": "IndexError", "reason": "`server` is the (SERVER_NAME, SERVER_PORT) pair built by the wrapper, server-controlled (input model)"},
-    {"func": "sansio.utils.get_host", "expr": "host[0]", "exc": "IndexError", "reason": "evaluated only after `':' in host`, so host is non-empty", "premise": "get_host_colon_guard"},
-    {"func": "wrappers.request.Request.stream", "expr": "raise RuntimeError", "exc": "RuntimeError", "reason": "raised only for a request the application created with shallow=True (application configuration, not client input)", "premise": "stream_shallow_guard"},
-    {"func": "datastructures.accept.MIMEAccept._value_matches", "expr": "raise ValueError(f'invalid mimetype", "exc": "ValueError", "reason": "`value` is the application's own offer / query, never client text: the client item without '/' returns False first", "premise": "mime_item_checked_first"},
-    {"func": "_internal._DictAccessorProperty.lookup", "expr": "raise NotImplementedError", "exc": "NotImplementedError", "reason": "abstract: header_property and environ_property both override lookup", "premise": "lookup_overridden"},
-    # -- shape invariants of lists built by the parsers ------------------------------------------------------------
-    {"func": "datastructures.accept.Accept.best", "expr": "self[0][0]", "exc": "IndexError", "reason": "elements of an Accept list are (value, quality) pairs by construction (parse_accept_header appends 2-tuples; Accept.__init__ sorts pairs)"},
-    {"func": "datastructures.accept.LanguageAccept.best_match", "expr": "item[0]", "exc": "IndexError", "reason": "iterating self: (value, quality) pairs by construction"},
-    {"func": "datastructures.accept.LanguageAccept.best_match", "expr": "item[1]", "exc": "IndexError", "reason": "iterating self: (value, quality) pairs by construction"},
-    {"func": "datastructures.accept.LanguageAccept.best_match", "expr": "next(", "exc": "StopIteration", "reason": "`result` is the primary tag split off one of `matches` by the same split, so at least one offer has that primary tag", "premise": "language_fallback_same_split"},
-    # -- regex-width / regex-language arguments ---------------------------------------------------------------------
-    {"func": "http.parse_options_header", "expr": "pk[-1]", "exc": "IndexError", "reason": "pk is group 1 of the key regex, which needs at least one character", "premise": "param_key_min1"},
-    {"func": "http.parse_options_header", "expr": "pv[0]", "exc": "IndexError", "reason": "pv is a token (class+), a quoted string of >= 2 characters, or the non-empty group 2 of the charset regex (unquote of a non-empty string is non-empty)", "premise": "param_value_min1"},
-    {"func": "http.parse_options_header", "expr": "pv[-1]", "exc": "IndexError", "reason": "same as pv[0]", "premise": "param_value_min1"},
-    {"func": "http.dump_options_header", "expr": "key[-1]", "exc": "IndexError", "reason": "on the request path the options come from parse_options_header, which never stores an empty key", "premise": "options_key_nonempty"},
-    {"func": "http.dump_header", "expr": "key[-1]", "exc": "IndexError", "reason": "keys come from parse_dict_header / parse_options_header, which skip empty keys", "premise": "options_key_nonempty"},
-    {"func": "http.parse_accept_header", "expr": "float(q_str)", "exc": "ValueError", "reason": "dominated by a full match of the q regex, whose language is ASCII decimals", "premise": "q_regex_decimal"},
-    {"func": "http.parse_csp_header", "expr": "directive, value = policy.strip().split(' ', 1)", "exc": "ValueError", "reason": "dominated by `' ' in policy` on the already stripped policy (strip is idempotent, an inner space survives)", "premise": "csp_space_guard"},
-    {"func": "sansio.http._cookie_unslash_replace", "expr": "to_bytes(1", "exc": "OverflowError", "reason": "a multi-character group 1 of the unslash regex is three octal digits starting with 0-3, i.e. < 256", "premise": "unslash_octal_below_256"},
-    {"func": "sansio.http._cookie_unslash_replace", "expr": "int(v, 8)", "exc": "ValueError", "reason": "group 1 is either one character (returned before) or three octal digits", "premise": "unslash_octal_below_256"},
-    # -- constructor validation already done by the parser ---------------------------------------------------------
-    {"func": "datastructures.range.Range.__init__", "expr": "raise ValueError", "exc": "ValueError", "reason": "parse_range_header only appends (begin, end) with 0 <= begin < end, or (negative, None)", "premise": "range_parser_validates"},
-    {"func": "datastructures.range.ContentRange.set", "expr": "assert http.is_byte_range_valid", "exc": "AssertionError", "reason": "parse_content_range_header constructs only under the same predicate", "premise": "content_range_parser_validates"},
-    {"func": "urls._decode_idna", "expr": "part.decode('ascii')", "exc": "UnicodeDecodeError", "reason": "`data` is the result of domain.encode('ascii'), so every part is ASCII", "premise": "idna_data_is_ascii"},
-    {"func": "formparser.MultiPartParser.parse", "expr": "not isinstance(event, (Epilogue, NeedData))", "exc": "non-termination", "reason": "every event other than NEED_DATA is produced together with a buffer deletion or a state change, so a bounded buffer yields finitely many events before NEED_DATA", "premise": "next_event_progress"},
-    {"func": "formparser._chunk_iter", "expr": "True", "exc": "non-termination", "reason": "each iteration reads from the request stream, which is finite (C09 bounds it); an empty read breaks", "premise": "chunk_iter_breaks_on_empty"},
-    # -- loops ------------------------------------------------------------------------------------------------------
-    {"func": "http.parse_etags", "expr": "pos < end", "exc": "non-termination", "reason": "an empty match of the ETag regex needs `$` at pos, i.e. pos == end (no newline in the input model), which ends the loop", "premise": "etag_regex_tail"},
-]
+
+class A:
+    """what a role may look at."""
+
+    def __init__(self, ctx, eff: Effects, folder: Folder, flow: Flow):
+        self.ctx = ctx
+        self.repo = ctx.repo
+        self.eff = eff
+        self.folder = folder
+        self.flow = flow
+
+
+Verdict = t.Optional[t.Tuple[bool, str]]
+
+
+def _is_subclass(a: A, c: ClassInfo | None, base_fq: str) -> bool:
+    return c is not None and any(k.fq == base_fq for k in a.repo.mro(c))
 
 
 # ---------------------------------------------------------------------
-# premises: structural facts about other code, re-checked on every run
+# input model: environ / header text is latin-1
 
 
-def _rx(ctx, folder, module: str, name: str) -> RegexConst:
-    v = folder.name(ctx.repo.module(module), name)
-    if not isinstance(v, RegexConst):
-        raise ValueError(f"{name} is not a regex")
-    return v
+_CGI_KEY = re.compile(r"[A-Z][A-Z0-9_]*\Z")
 
 
-def _regex_used(ctx, folder, fq: str, method: str = "match"):
-    """regex constants whose .<method> is called in function fq"""
-    f = ctx.repo.func(fq)
-    out = []
-    for c in astq.method_calls(f.node, method):
-        d = dotted(c.func.value)
-        if d:
+def _input_text(a: A, fi: FuncInfo, e: ast.AST, node, st: St = St(), depth: int = 0) -> bool:
+    """e is text of the input model: a CGI variable looked up in a mapping parameter, an argument of an entry point
+    (header text by the property's quantifier), a latin-1 constant, or a choice between those."""
+    if depth > 12:
+        return False
+    if isinstance(e, ast.Constant):
+        if e.value is None:
+            return True
+        if isinstance(e.value, str):
             try:
-                v = folder.name(f.module, d)
-            except Exception:
-                continue
-            if isinstance(v, RegexConst):
-                out.append((d, v, c))
-    return f, out
-
-
-def p_param_key_min1(ctx, folder):
-    f, used = _regex_used(ctx, folder, "http.parse_options_header")
-    keys = [(d, v) for d, v, c in used if v.pattern.endswith("=") or v.pattern.endswith("=)")]
-    if not keys:
-        return False, "key regex not found"
-    d, v = keys[0]
-    w = group_width(v, 1)
-    return w[0] >= 1, f"{d} group 1 min width {w[0]}"
-
-
-def p_param_value_min1(ctx, folder):
-    f, used = _regex_used(ctx, folder, "http.parse_options_header")
-    facts = []
-    ok = True
-    for d, v, c in used:
-        if v.pattern.endswith("="):
-            continue
-        if "'" in v.pattern and v.parsed().state.groups - 1 == 2:
-            w = group_width(v, 2)
-            facts.append(f"{d} group 2 min width {w[0]}")
-            ok = ok and w[0] >= 1
-        else:
-            w = width(v)
-            facts.append(f"{d} min width {w[0]}")
-            ok = ok and w[0] >= 1
-    # the quoted alternative appends rest[:pos + 1] with pos >= 1
-    q = any(norm(n) == "rest[:pos + 1]" for n in ast.walk(f.node)) and any(isinstance(s, ast.Assign) and norm(s) == "pos = 1" for s in ast.walk(f.node))
-    return ok and q and len(facts) >= 2, "; ".join(facts) + f"; quoted slice starts at pos = 1: {q}"
-
-
-def p_options_key_nonempty(ctx, folder):
-    f = ctx.repo.func("http.parse_options_header")
-    cfg = cfg_of(f)
-    stores = [n for n in cfg.nodes if isinstance(n.ast, ast.Assign) and isinstance(n.ast.targets[0], ast.Subscript) and norm(n.ast.targets[0].value) == "options"]
-    tests = [t for t in cfg.tests() if t.kind == "test" and norm(t.ast) == "pk"]
-    ok = bool(stores) and len(tests) >= 1 and all(any(cfg.edge_dominates(t, "T", s) for t in tests) for s in stores)
-    # parse_dict_header skips an empty key as well
-    g = ctx.repo.func("http.parse_dict_header")
-    ok2 = any(isinstance(n, ast.If) and norm(n.test) == "not key" and any(isinstance(s, ast.Continue) for s in n.body) for n in ast.walk(g.node))
-    return ok and ok2, f"{len(stores)} option store(s) dominated by a non-empty key test: {ok}; parse_dict_header skips empty keys: {ok2}"
-
-
-def p_q_regex_decimal(ctx, folder):
-    f, used = _regex_used(ctx, folder, "http.parse_accept_header", "fullmatch")
-    if not used:
-        return False, "no fullmatch of a folded regex in parse_accept_header"
-    d, v, c = used[0]
-    chars = set()
-    for cls in classes_in(v, 0x3000):
-        chars |= cls
-    lits = {ord(ch) for ch in v.pattern if ch in "-."}
-    ok_cls = all(48 <= x <= 57 for x in chars) and bool(v.flags & re.A)
-    # no exponent / inf / nan letters anywhere in the pattern
-    ok_lit = not re.search(r"[A-Za-z_]", re.sub(r"\\[dDwWsS]", "", v.pattern))
-    cfg = cfg_of(f)
-    fl = [x for x in astq.calls(f.node) if dotted(x.func) == "float"]
-    t_ = [t for t in cfg.tests() if t.ast is c or any(y is c for y in ast.walk(t.ast))]
-    dom = bool(fl) and bool(t_) and all(any(cfg.edge_dominates(t, "T", cfg.node_of(x)) or cfg.edge_dominates(t, "F", cfg.node_of(x)) for t in t_) for x in fl)
-    same = bool(fl) and all(norm(x.args[0]) == norm(c.args[0]) for x in fl)
-    return ok_cls and ok_lit and dom and same, f"{d} = {v.pattern!r}: digit classes only (ASCII): {ok_cls}; no letters: {ok_lit}; float() dominated by the match test: {dom}; on the matched text: {same}"
-
-
-def p_csp_space_guard(ctx, folder):
-    f = ctx.repo.func("http.parse_csp_header")
-    cfg = cfg_of(f)
-    sp = [n for n in cfg.nodes if isinstance(n.ast, ast.Assign) and isinstance(n.ast.targets[0], ast.Tuple) and ".split(' ', 1)" in norm(n.ast.value)]
-    tests = [t for t in cfg.tests() if norm(t.ast) == "' ' in policy"]
-    stripped = any(isinstance(s, ast.Assign) and norm(s) == "policy = policy.strip()" for s in ast.walk(f.node))
-    ok = len(sp) == 1 and len(tests) == 1 and cfg.edge_dominates(tests[0], "T", sp[0]) and stripped and norm(sp[0].ast.value).startswith("policy")
-    return ok, f"split dominated by `' ' in policy`: {ok}; policy stripped before the test: {stripped}"
-
-
-def p_unslash_octal(ctx, folder):
-    v = _rx(ctx, folder, "sansio.http", "_cookie_unslash_re")
-    pat = v.pattern if isinstance(v.pattern, str) else v.pattern.decode("latin1")
-    cls = classes_in(v, 256)
-    # expected shape: \\( [0-3][0-7]{2} | . )
-    ok = len(cls) >= 2 and cls[0] <= set(b"0123") and cls[1] <= set(b"01234567")
-    w = group_width(v, 1)
-    f = ctx.repo.func("sansio.http._cookie_unslash_replace")
-    one = any(isinstance(n, ast.If) and norm(n.test) == "len(v) == 1" and any(isinstance(s, ast.Return) for s in n.body) for n in ast.walk(f.node))
-    return ok and w[1] <= 3 and one, f"pattern {pat!r}: first digit class {sorted(chr(c) for c in cls[0]) if cls else None}, group 1 width {w}; single character returned first: {one}"
-
-
-def p_range_parser_validates(ctx, folder):
-    f = ctx.repo.func("http.parse_range_header")
-    cfg = cfg_of(f)
-    app = [n for n in cfg.nodes if isinstance(n.ast, ast.Expr) and norm(n.ast.value) == "ranges.append((begin, end))"]
-    if len(app) != 1:
-        return False, f"{len(app)} `ranges.append((begin, end))`"
-    t_ge = [t for t in cfg.tests() if norm(t.ast) in ("begin >= end", "end <= begin")]
-    ok_ge = len(t_ge) == 1 and all(isinstance(s.ast, ast.Return) and norm(s.ast.value) == "None" for s in cfg.succ(t_ge[0], "T"))
-    # every `end = <int> + 1` assignment is followed by that test before the append
-    ends = [n for n in cfg.nodes if isinstance(n.ast, ast.Assign) and norm(n.ast.targets[0]) == "end" and not astq.is_none(n.ast.value)]
-    passes = all(cfg.all_paths_pass(n, app, t_ge) for n in ends) if t_ge else False
-    # begin in the first-last form comes from _plain_int of a text that does not start with '-' (the '-' form is the other branch) and is compared with last_end >= 0
-    t_last = [t for t in cfg.tests() if "begin < last_end" in norm(t.ast)]
-    begins = [n for n in cfg.nodes if isinstance(n.ast, ast.Assign) and norm(n.ast.targets[0]) == "begin"]
-    ok_b = all("_plain_int(" in norm(n.ast.value) for n in begins) and len(begins) == 2
-    return ok_ge and passes and bool(t_last) and ok_b, f"`begin >= end` -> return None: {ok_ge}; every explicit end passes it before the append: {passes}; begin checked against last_end: {bool(t_last)}; begin from _plain_int: {ok_b}"
-
-
-def p_content_range_parser_validates(ctx, folder):
-    f = ctx.repo.func("http.parse_content_range_header")
-    cfg = cfg_of(f)
-    cons = [c for c in astq.calls(f.node) if (dotted(c.func) or "").endswith("ContentRange")]
-    ok = bool(cons)
-    facts = []
-    for c in cons:
-        n = cfg.node_of(c)
-        g = {f"{norm(t.ast)}:{l}" for t, l in cfg.guards(n)}
-        args = [norm(a) for a in c.args[1:4]]
-        want_t = f"is_byte_range_valid({', '.join(args)}):T"
-        want_f = f"not is_byte_range_valid({', '.join(args)})"
-        hit = want_t in g or any(x.startswith(f"is_byte_range_valid({', '.join(args)})") and x.endswith(":T") for x in g)
-        facts.append(f"ContentRange({', '.join(args)}) guarded: {hit}")
-        ok = ok and hit
-    return ok, "; ".join(facts)
-
-
-def p_idna_data_is_ascii(ctx, folder):
-    f = ctx.repo.func("urls._decode_idna")
-    ds = [norm(v) for _, v in astq.assigns_to(f.node, "data", nested=True) if v is not None]
-    loop = any(isinstance(n, ast.For) and norm(n.iter) == "data.split(b'.')" and norm(n.target) == "part" for n in ast.walk(f.node))
-    return ds == ["domain.encode('ascii')"] and loop, f"data = {ds}; parts come from data.split(b'.'): {loop}"
-
-
-def p_get_host_colon_guard(ctx, folder):
-    f = ctx.repo.func("sansio.utils.get_host")
-    cfg = cfg_of(f)
-    subs = [n for n in ast.walk(f.node) if isinstance(n, ast.Subscript) and norm(n) == "host[0]"]
-    tests = [t for t in cfg.tests() if norm(t.ast) == "':' in host"]
-    ok = bool(subs) and len(tests) == 1 and all(cfg.edge_dominates(tests[0], "T", cfg.node_of(s)) or any(norm(t.ast) == "':' in host" for t, l in cfg.guards(cfg.node_of(s))) or _same_boolop(s, tests[0].ast) for s in subs)
-    return ok, f"host[0] evaluated after `':' in host`: {ok}"
-
-
-def _same_boolop(sub, test_ast) -> bool:
-    # `':' in host and host[0] != '['`: the subscript is a later operand of the same `and`
-    p = astq.parent(sub)
-    while p is not None and not isinstance(p, ast.BoolOp):
-        p = astq.parent(p)
-    if isinstance(p, ast.BoolOp) and isinstance(p.op, ast.And):
-        idx_t = [i for i, v in enumerate(p.values) if v is test_ast]
-        idx_s = [i for i, v in enumerate(p.values) if any(x is sub for x in ast.walk(v))]
-        return bool(idx_t) and bool(idx_s) and idx_t[0] < idx_s[0]
+                e.value.encode("latin1")
+                return True
+            except UnicodeEncodeError:
+                return False
+        return False
+    if isinstance(e, ast.BoolOp):
+        return all(_input_text(a, fi, v, node, st, depth + 1) for v in e.values)
+    if isinstance(e, ast.IfExp):
+        return _input_text(a, fi, e.body, node, st, depth + 1) and _input_text(a, fi, e.orelse, node, st, depth + 1)
+    if isinstance(e, ast.NamedExpr):
+        return _input_text(a, fi, e.value, node, st, depth + 1)
+    look = None
+    if isinstance(e, ast.Call) and isinstance(e.func, ast.Attribute) and e.func.attr == "get" and 1 <= len(e.args) <= 2 and not e.keywords:
+        look = (e.func.value, e.args[0], e.args[1] if len(e.args) == 2 else None)
+    elif isinstance(e, ast.Subscript) and not isinstance(e.slice, ast.Slice):
+        look = (e.value, e.slice, None)
+    if look is not None:
+        m, k, dflt = look
+        ks = astq.const_str(k)
+        if ks is None or not _CGI_KEY.match(ks):
+            return False
+        if dflt is not None and not _input_text(a, fi, dflt, node, st, depth + 1):
+            return False
+        return _mapping_param(a, fi, m, node)
+    if isinstance(e, ast.Name):
+        if node is None:
+            return False
+        defs = a.flow.rd(fi).reaching(node, e.id)
+        if not defs:
+            return False
+        for d in defs:
+            if d.kind in ("assign", "walrus") and d.index is None and d.value is not None:
+                if not _input_text(a, fi, d.value, d.node, st, depth + 1):
+                    return False
+            elif d.kind == "param":
+                if fi.fq in a.flow.entry_fqs:
+                    continue  # the arguments of the entry points are the client text the property quantifies over
+                srcs = a.flow.param_sources(fi, d.name, st)
+                if srcs is None:
+                    return False
+                for f2, x, n2, s2 in srcs:
+                    if not _input_text(a, f2, x, n2, s2, depth + 1):
+                        return False
+            else:
+                return False
+        return True
     return False
 
 
-def p_stream_shallow_guard(ctx, folder):
-    f = ctx.repo.func("wrappers.request.Request.stream")
-    cfg = cfg_of(f)
-    rs = [n for n in cfg.nodes if isinstance(n.ast, ast.Raise)]
-    ok = len(rs) == 1 and {f"{norm(t.ast)}:{l}" for t, l in cfg.guards(rs[0])} == {"self.shallow:T"}
-    return ok, f"raise guarded exactly by self.shallow: {ok}"
+def _mapping_param(a: A, fi: FuncInfo, m: ast.AST, node) -> bool:
+    """the mapping a CGI variable is read from is a parameter (the environ / header mapping handed in) or <x>.environ."""
+    if isinstance(m, ast.Attribute) and m.attr == "environ":
+        return True
+    if isinstance(m, ast.Name) and node is not None:
+        defs = a.flow.rd(fi).reaching(node, m.id)
+        return bool(defs) and all(d.kind == "param" or (d.kind == "assign" and d.index is None and isinstance(d.value, ast.Attribute) and d.value.attr == "environ") for d in defs)
+    return False
 
 
-def p_mime_item_checked_first(ctx, folder):
-    f = ctx.repo.func("datastructures.accept.MIMEAccept._value_matches")
-    cfg = cfg_of(f)
-    rs = [n for n in cfg.nodes if isinstance(n.ast, ast.Raise)]
-    params = f.params
-    ok = bool(rs)
-    for r in rs:
-        g = {norm(t.ast) for t, l in cfg.guards(r)}
-        # guards of each raise mention only `value` (the first parameter after self), never `item`
-        ok = ok and all(("item" not in x) or ("'/' not in item" in x) for x in g) and any("value" in x for x in g)
-    return ok, f"{len(rs)} raise(s), each guarded by tests on `{params[1]}` only: {ok}"
+def role_latin1_input(a: A, s: Site, e: str) -> Verdict:
+    if s.kind != "encode" or e != "UnicodeEncodeError" or not isinstance(s.node, ast.Call):
+        return None
+    enc = astq.arg_or_kw(s.node, 0, "encoding")
+    if astq.const_str(enc or ast.Constant("utf-8")) not in ("latin1", "latin-1", "iso-8859-1", "iso8859-1"):
+        return None
+    recv = s.node.func.value  # type: ignore[attr-defined]
+    node = a.flow.node(s.func, s.node)
+    if _input_text(a, s.func, recv, node):
+        return True, "receiver is environ / header text (a CGI variable of the environ mapping or an argument of an entry point), latin-1 by the WSGI contract (input model)"
+    return None
 
 
-def p_lookup_overridden(ctx, folder):
-    ok = True
+# ---------------------------------------------------------------------
+# application / server controlled raises
+
+
+def role_shallow_flag(a: A, s: Site, e: str) -> Verdict:
+    if s.kind != "raise" or e != "RuntimeError" or s.func.cls is None or not s.func.params:
+        return None
+    sn = s.func.params[0]
+    node = a.flow.node(s.func, s.node)
+    if node is None:
+        return None
+    flags = []
+    for at in a.flow.atoms(s.func, node):
+        if at.op == "truthy" and at.truth and astq.is_self_attr(at.a, None, sn) and a.flow.fresh(s.func, at, node):
+            flags.append(at.a.attr)  # type: ignore[attr-defined]
+    for fl in flags:
+        # the flag is constructor configuration: some __init__ in the MRO stores its own parameter of that name
+        for k in a.repo.mro(s.func.cls):
+            ini = k.methods.get("__init__") if isinstance(k, ClassInfo) else None
+            if ini is not None and fl in ini.params and _bool_default(ini, fl):
+                stored = any(isinstance(x, ast.Assign) and any(astq.is_self_attr(tg, fl, ini.params[0]) for tg in x.targets) and isinstance(x.value, ast.Name) and x.value.id == fl for x in walk_no_nested(ini.node))
+                if stored:
+                    return True, f"raised only under `{sn}.{fl}`, a flag the application passes to {k.name}.__init__ (application configuration, not client input)"
+    return None
+
+
+def _bool_default(f: FuncInfo, pname: str) -> bool:
+    """the parameter is an on/off switch: its default is the constant True or False."""
+    a_ = f.node.args  # type: ignore[attr-defined]
+    pos = a_.posonlyargs + a_.args
+    for i, x in enumerate(pos):
+        if x.arg == pname:
+            j = i - (len(pos) - len(a_.defaults))
+            return j >= 0 and isinstance(a_.defaults[j], ast.Constant) and isinstance(a_.defaults[j].value, bool)
+    for x, d in zip(a_.kwonlyargs, a_.kw_defaults):
+        if x.arg == pname:
+            return isinstance(d, ast.Constant) and isinstance(d.value, bool)
+    return False
+
+
+def role_abstract_method(a: A, s: Site, e: str) -> Verdict:
+    if s.kind != "raise" or e != "NotImplementedError" or s.func.cls is None:
+        return None
+    subs = a.repo.subclasses(s.func.cls.fq)
+    if not subs:
+        return None
+    missing = []
+    for c in subs:
+        _, w = a.repo.lookup(c, s.func.name)
+        if not isinstance(w, FuncInfo) or w is s.func:
+            missing.append(c.name)
+    ok = not missing
+    return ok, f"abstract: all {len(subs)} subclass(es) of {s.func.cls.name} override {s.func.name}" if ok else f"abstract method not overridden in {missing}"
+
+
+def _client_positions(a: A, meth: FuncInfo) -> tuple[set[int], int]:
+    """argument positions of self.<meth>(...) calls (in the class hierarchy) that carry an element of `self`
+    (the client's list), and the number of such calls."""
+    pos: set[int] = set()
+    ncalls = 0
+    classes = [k for k in a.repo.mro(meth.cls) if isinstance(k, ClassInfo)] + list(a.repo.subclasses(meth.cls.fq))  # type: ignore[arg-type]
+    for k in classes:
+        for m in k.methods.values():
+            if not m.params:
+                continue
+            sn = m.params[0]
+            for c in astq.calls(m.node):
+                if isinstance(c.func, ast.Attribute) and c.func.attr == meth.name and isinstance(c.func.value, ast.Name) and c.func.value.id == sn:
+                    ncalls += 1
+                    nn = cfg_of(m).node_of(c)
+                    for i, arg in enumerate(c.args):
+                        if _from_self_elements(a, m, arg, nn):
+                            pos.add(i)
+    return pos, ncalls
+
+
+def _from_self_elements(a: A, m: FuncInfo, e: ast.AST, node, depth: int = 0) -> bool:
+    """e is (a component of) an element obtained by iterating / indexing the method's own `self`."""
+    sn = m.params[0]
+    if depth > 6:
+        return False
+    if isinstance(e, ast.Subscript):
+        if isinstance(e.value, ast.Name) and e.value.id == sn:
+            return True
+        return _from_self_elements(a, m, e.value, node, depth + 1)
+    if isinstance(e, ast.Name) and node is not None:
+        cb = a.flow._comp_binding(m, e) if hasattr(e, "_parent") else None
+        if cb is not None:
+            return _iter_of_self(cb[0].iter, sn)
+        defs = a.flow.rd(m).reaching(node, e.id)
+        if not defs:
+            return False
+        for d in defs:
+            if d.kind == "for":
+                it = d.stmt.iter if isinstance(d.stmt, (ast.For, ast.AsyncFor)) else None
+                if it is None or not _iter_of_self(it, sn):
+                    return False
+            elif d.kind in ("assign", "unpack", "walrus") and d.value is not None:
+                if not _from_self_elements(a, m, d.value, d.node, depth + 1):
+                    return False
+            else:
+                return False
+        return True
+    return False
+
+
+def _iter_of_self(it: ast.AST, sn: str) -> bool:
+    if isinstance(it, ast.Name) and it.id == sn:
+        return True
+    if isinstance(it, ast.Call) and dotted(it.func) in ("enumerate", "iter", "reversed", "list", "tuple") and it.args and isinstance(it.args[0], ast.Name) and it.args[0].id == sn:
+        return True
+    return False
+
+
+def role_application_value(a: A, s: Site, e: str) -> Verdict:
+    """explicit raise in a matching method of an Accept class, under a test of the application's own value only."""
+    if s.kind != "raise" or e != "ValueError" or not _is_subclass(a, s.func.cls, "werkzeug.datastructures.accept.Accept"):
+        return None
+    pos, ncalls = _client_positions(a, s.func)
+    if not ncalls or not pos:
+        return None
+    params = s.func.params[1:]
+    client = {params[i] for i in pos if i < len(params)}
+    app = set(params) - client
+    node = a.flow.node(s.func, s.node)
+    if node is None or not app:
+        return None
+    own = []
+    for at in a.flow.atoms(s.func, node):
+        deps = set()
+        for x in (at.a, at.b):
+            if x is not None:
+                deps |= a.flow.param_deps(s.func, x, at.test)
+        deps.discard(s.func.params[0])
+        if deps and deps <= app:
+            own.append(norm(at.test.ast))
+    ok = bool(own)
+    why = f"of {ncalls} call(s) self.{s.func.name}(...) the argument(s) {sorted(client)} carry the client's items; "
+    if ok:
+        return True, why + f"this raise is dominated by a test of the application's own value only ({own[0]}): a client item cannot trigger it"
+    return False, why + "this raise is not dominated by any test that depends on the application's value only"
+
+
+# ---------------------------------------------------------------------
+# Accept lists: (value, quality) pairs
+
+
+def _accept_pairs_premise(a: A) -> tuple[bool, str]:
+    f = a.repo.func("http.parse_accept_header")
     facts = []
-    for fq in ("utils.header_property", "utils.environ_property"):
-        c = ctx.repo.try_cls(fq)
-        has = c is not None and "lookup" in c.methods
-        facts.append(f"{fq}.lookup defined: {has}")
-        ok = ok and has
-    base = ctx.repo.cls("_internal._DictAccessorProperty")
-    subs = ctx.repo.subclasses(base.fq)
-    ok = ok and all("lookup" in s.methods for s in subs)
-    return ok, "; ".join(facts) + f"; all {len(subs)} subclasses override it: {ok}"
+    ok = True
+    n = 0
+    for r in astq.returns_of(f.node):
+        v = r.value
+        if isinstance(v, ast.Call) and len(v.args) == 1 and not v.keywords and isinstance(v.func, ast.Name):
+            if astq.is_none(v.args[0]):
+                continue
+            n += 1
+            save = a.flow.cur
+            a.flow.cur = None
+            try:
+                ar = a.flow.minlen(f, v.args[0], cfg_of(f).node_of(r), (("any",),))
+            finally:
+                a.flow.cur = save
+            facts.append(f"`{norm(v)}`: every element has >= {ar if ar < INF else 'inf'} component(s)")
+            ok = ok and ar >= 2
+    if not n:
+        raise AnalysisError("C07 accept pairs: parse_accept_header does not return <cls>(<list>) any more; the producer of the Accept list was not found")
+    return ok, "; ".join(facts)
 
 
-def p_language_fallback_same_split(ctx, folder):
-    f = ctx.repo.func("datastructures.accept.LanguageAccept.best_match")
-    fm = [norm(v) for _, v in astq.assigns_to(f.node, "fallback_matches") if v is not None]
-    nx = [c for c in astq.calls(f.node) if dotted(c.func) == "next"]
-    ok = len(fm) == 1 and "_locale_delim_re.split(item, 1)[0] for item in matches" in fm[0] and len(nx) == 1 and "_locale_delim_re.split(item, 1)[0] == result" in norm(nx[0]) and "for item in matches" in norm(nx[0])
-    src = [norm(v) for _, v in astq.assigns_to(f.node, "result") if v is not None]
-    ok = ok and any("best_match(fallback_matches)" in s for s in src)
-    return ok, f"fallback list {fm}; result negotiated over it: {ok}"
+def role_accept_pair(a: A, s: Site, e: str) -> Verdict:
+    if s.kind != "const-index" or e != "IndexError" or not _is_subclass(a, s.func.cls, "werkzeug.datastructures.accept.Accept"):
+        return None
+    sub = s.node
+    idx = const_int(sub.slice)  # type: ignore[attr-defined]
+    if idx not in (0, 1):
+        return None
+    node = a.flow.node(s.func, sub)
+    if not _from_self_elements(a, s.func, sub.value, node) or (isinstance(sub.value, ast.Name) and sub.value.id == s.func.params[0]):  # type: ignore[attr-defined]
+        return None
+    ok, why = _accept_pairs_premise(a)
+    return ok, f"component {idx} of an element of the Accept list itself: (value, quality) pairs by construction [{why}]"
 
 
-def p_etag_regex_tail(ctx, folder):
-    v = _rx(ctx, folder, "http", "_etag_re")
-    ok = v.pattern.endswith("(?:\\s*,\\s*|$)") and not (v.flags & re.M)
-    f = ctx.repo.func("http.parse_etags")
-    adv = any(isinstance(s, ast.Assign) and norm(s) == "pos = match.end()" for s in ast.walk(f.node))
-    brk = any(isinstance(n, ast.If) and norm(n.test) == "match is None" and any(isinstance(s, ast.Break) for s in n.body) for n in ast.walk(f.node))
-    return ok and adv and brk, f"pattern ends with a separator-or-$ alternative without re.M: {ok}; pos = match.end(): {adv}; no match -> break: {brk}"
+def _rename(e: ast.AST, old: str, new: str = "_") -> str:
+    fresh = ast.parse(ast.unparse(e), mode="eval").body
+
+    class T(ast.NodeTransformer):
+        def visit_Name(self, n):  # noqa: N802
+            return ast.copy_location(ast.Name(new, n.ctx), n) if n.id == old else n
+
+    return norm(T().visit(fresh))
+
+
+def role_fallback_search(a: A, s: Site, e: str) -> Verdict:
+    """next(<x for x in M if key(x) == R>) where R was negotiated over [key(x) for x in M]."""
+    if s.kind != "next" or e != "StopIteration" or not _is_subclass(a, s.func.cls, "werkzeug.datastructures.accept.Accept"):
+        return None
+    call = s.node
+    g = call.args[0] if isinstance(call, ast.Call) and call.args else None
+    if not isinstance(g, ast.GeneratorExp) or len(g.generators) != 1 or len(g.generators[0].ifs) != 1 or not isinstance(g.generators[0].target, ast.Name):
+        return None
+    gen = g.generators[0]
+    var = gen.target.id
+    cond = gen.ifs[0]
+    if not (isinstance(cond, ast.Compare) and len(cond.ops) == 1 and isinstance(cond.ops[0], ast.Eq)):
+        return None
+    l, r = cond.left, cond.comparators[0]
+    if isinstance(l, ast.Name) and l.id != var:
+        l, r = r, l
+    if not isinstance(r, ast.Name) or var in astq.names_in(r) or var not in astq.names_in(l):
+        return None
+    fi = s.func
+    node = a.flow.node(fi, call)
+    rd = a.flow.rd(fi)
+    key_txt = _rename(l, var)
+    facts = []
+    # R is not None here
+    nn = a.flow.holds(fi, node, lambda at: (at.op == "is" and not at.truth and norm(at.a) == r.id and astq.is_none(at.b)) or (at.op == "truthy" and at.truth and norm(at.a) == r.id))
+    facts.append(f"`{r.id}` is known to be a negotiated value (not None): {nn is not None}")
+    # R = <...>.best_match(L) with L = [key(y) for y in M]
+    defs = list(rd.reaching(node, r.id))
+    ok_src = False
+    if len(defs) == 1 and defs[0].kind in ("assign", "walrus") and isinstance(defs[0].value, ast.Call) and isinstance(defs[0].value.func, ast.Attribute) and defs[0].value.func.attr == "best_match" and len(defs[0].value.args) == 1 and not defs[0].value.keywords:
+        larg = defs[0].value.args[0]
+        lst = larg
+        if isinstance(larg, ast.Name):
+            ld = list(rd.reaching(defs[0].node, larg.id))
+            lst = ld[0].value if len(ld) == 1 and ld[0].kind in ("assign", "walrus") and ld[0].index is None else None
+        if isinstance(lst, (ast.ListComp, ast.GeneratorExp)) and len(lst.generators) == 1 and not lst.generators[0].ifs and isinstance(lst.generators[0].target, ast.Name):
+            same_key = _rename(lst.elt, lst.generators[0].target.id) == key_txt
+            same_iter = norm(lst.generators[0].iter) == norm(gen.iter)
+            stable = isinstance(gen.iter, ast.Name) and {id(d) for d in rd.reaching(node, gen.iter.id)} == {id(d) for d in rd.reaching(a.flow.node(fi, lst), gen.iter.id)}
+            ok_src = same_key and same_iter and stable
+            facts.append(f"negotiated over [{key_txt} for _ in {norm(lst.generators[0].iter)}]: same key {same_key}, same offers {same_iter and stable}")
+        else:
+            facts.append("the list negotiated over is not a comprehension of the searched offers")
+    else:
+        facts.append(f"`{r.id}` is not the single result of a best_match call")
+    # best_match returns one of its offers (or the default, None here)
+    bm = a.repo.func("datastructures.accept.Accept.best_match")
+    ok_bm = _returns_offer_or_default(a, bm)
+    facts.append(f"Accept.best_match returns one of its offers or the default: {ok_bm}")
+    ok = nn is not None and ok_src and ok_bm
+    return ok, "the searched value is the key of one of the offers by construction [" + "; ".join(facts) + "]"
+
+
+def _returns_offer_or_default(a: A, bm: FuncInfo) -> bool:
+    rd = a.flow.rd(bm)
+    cfg = cfg_of(bm)
+    if len(bm.params) < 3:
+        return False
+    offers, default = bm.params[1], bm.params[2]
+    rets = astq.returns_of(bm.node)
+    if not rets:
+        return False
+
+    def ok_val(v, n, depth=0) -> bool:
+        if depth > 4 or not isinstance(v, ast.Name):
+            return False
+        ds = rd.reaching(n, v.id)
+        if not ds:
+            return False
+        for d in ds:
+            if d.kind == "param":
+                if d.name != default:
+                    return False
+            elif d.kind == "for" and d.index is None and isinstance(d.stmt, ast.For) and isinstance(d.stmt.iter, ast.Name) and d.stmt.iter.id == offers:
+                continue
+            elif d.kind in ("assign", "walrus") and d.index is None and d.value is not None:
+                if not ok_val(d.value, d.node, depth + 1):
+                    return False
+            else:
+                return False
+        return True
+
+    return all(r.value is not None and ok_val(r.value, cfg.node_of(r)) for r in rets)
+
+
+# ---------------------------------------------------------------------
+# numbers parsed from text that a regex fully matched
+
+
+def _digits_only(items, rx: RegexConst) -> bool:
+    cls = class_of_items(items, rx.flags, isinstance(rx.pattern, bytes), 0x3000)
+    return bool(cls) and all(48 <= c <= 57 for c in cls)
+
+
+def _is_digit_run(node, rx: RegexConst, min_lo: int) -> bool:
+    op, av = node
+    if op in (sre_c.MAX_REPEAT, sre_c.MIN_REPEAT):
+        lo, hi, sub = av
+        sub = list(sub)
+        return lo >= min_lo and len(sub) == 1 and sub[0][0] is sre_c.IN and _digits_only(sub[0][1], rx)
+    if op is sre_c.IN and min_lo <= 1:
+        return _digits_only(av, rx)
+    return False
+
+
+def _is_sign_opt(node) -> bool:
+    op, av = node
+    if op in (sre_c.MAX_REPEAT, sre_c.MIN_REPEAT) and av[0] == 0 and av[1] == 1:
+        sub = list(av[2])
+        if len(sub) == 1 and sub[0][0] is sre_c.LITERAL and chr(sub[0][1]) in "+-":
+            return True
+        if len(sub) == 1 and sub[0][0] is sre_c.IN and all(o is sre_c.LITERAL and chr(v) in "+-" for o, v in sub[0][1]):
+            return True
+    return False
+
+
+def decimal_language(rx: RegexConst, allow_fraction: bool) -> bool:
+    """L(rx) is a subset of [+-]? DIGIT+ ( '.' DIGIT* )?  (ASCII digits): every member is accepted by int()/float()."""
+    if isinstance(rx.pattern, bytes):
+        return False
+    items = list(rx.parsed())
+    i = 0
+    if i < len(items) and _is_sign_opt(items[i]):
+        i += 1
+    if i >= len(items) or not _is_digit_run(items[i], rx, 1):
+        return False
+    i += 1
+    if i == len(items):
+        return True
+    if not allow_fraction or i != len(items) - 1:
+        return False
+    op, av = items[i]
+    frac = None
+    if op in (sre_c.MAX_REPEAT, sre_c.MIN_REPEAT) and av[0] == 0 and av[1] == 1:
+        sub = list(av[2])
+        if len(sub) == 1 and sub[0][0] is sre_c.SUBPATTERN:
+            frac = list(sub[0][1][3])
+        else:
+            frac = sub
+    elif op is sre_c.SUBPATTERN:
+        frac = list(av[3])
+    if frac is None or len(frac) != 2:
+        return False
+    return frac[0][0] is sre_c.LITERAL and chr(frac[0][1]) == "." and _is_digit_run(frac[1], rx, 0)
+
+
+def _fullmatched_by(a: A, fi: FuncInfo, x: ast.AST, node, st: St = St(), depth: int = 0):
+    """regexes R with `R.fullmatch(x)` established at node (a dominating guard here, or - x being a parameter passed
+    straight through - at every call site on the escaping chain).  Returns (regex, description) or None."""
+    ks = a.flow.keys(fi, x, node)
+    for at in a.flow.atoms(fi, node):
+        c = None
+        if at.op == "is" and not at.truth and astq.is_none(at.b):
+            c = at.a
+        elif at.op == "truthy" and at.truth:
+            c = at.a
+        if isinstance(c, ast.Call) and isinstance(c.func, ast.Attribute) and c.func.attr == "fullmatch" and len(c.args) == 1 and norm(c.args[0]) in ks:
+            rx = a.flow.fold_regex(fi, c.func.value)
+            if rx is not None and a.flow.fresh(fi, at, node):
+                return rx, f"`{norm(c)}` matched on every path to the conversion in {fi.qualname}"
+    if isinstance(x, ast.Name) and depth < 2:
+        defs = a.flow.rd(fi).reaching(node, x.id)
+        if defs and all(d.kind == "param" for d in defs):
+            srcs = a.flow.param_sources(fi, x.id, st)
+            if srcs:
+                got = [_fullmatched_by(a, f2, y, n2, s2, depth + 1) for f2, y, n2, s2 in srcs]
+                if all(g is not None and g[0].pattern == got[0][0].pattern and g[0].flags == got[0][0].flags for g in got):
+                    return got[0][0], "; ".join(g[1] for g in got) + f" (argument passed straight to {fi.qualname})"
+    return None
+
+
+def role_regex_number(a: A, s: Site, e: str) -> Verdict:
+    if s.kind not in ("float", "int") or e != "ValueError" or not isinstance(s.node, ast.Call) or len(s.node.args) != 1 or s.node.keywords:
+        return None
+    node = a.flow.node(s.func, s.node)
+    if node is None:
+        return None
+    arg = s.node.args[0]
+    got = None
+    whole = None
+    if isinstance(arg, ast.Call) and isinstance(arg.func, ast.Attribute) and arg.func.attr == "group" and (not arg.args or (len(arg.args) == 1 and const_int(arg.args[0]) == 0)):
+        whole = arg.func.value
+    elif isinstance(arg, ast.Subscript) and const_int(arg.slice) == 0:
+        whole = arg.value
+    if whole is not None:
+        rx0 = a.flow.regex_of_match(s.func, whole, node)
+        if rx0 is not None:
+            got = rx0, f"the operand is the whole match `{norm(arg)}` of a match object of the pattern, a member of its language"
+    if got is None:
+        got = _fullmatched_by(a, s.func, arg, node)
+    if got is None:
+        return None
+    rx, how = got
+    ok = decimal_language(rx, allow_fraction=s.kind == "float") and bool(rx.flags & re.A)
+    return ok, f"{how}; language of {rx.pattern!r} (re.ASCII: {bool(rx.flags & re.A)}) is a subset of the {'decimal' if s.kind == 'float' else 'integer'} literals {s.kind}() accepts: {ok}"
+
+
+# ---------------------------------------------------------------------
+# octal escapes: int(x, 8).to_bytes(1, ...)
+
+
+def _alt_classes(seq, rx: RegexConst):
+    """a fixed-length sequence of character classes as a list of sets, or None."""
+    out = []
+    for op, av in seq:
+        if op in (sre_c.MAX_REPEAT, sre_c.MIN_REPEAT):
+            lo, hi, sub = av
+            sub = list(sub)
+            if lo != hi or len(sub) != 1:
+                return None
+            one = _alt_classes(sub, rx)
+            if one is None:
+                return None
+            out.extend(one * lo)
+        elif op is sre_c.IN:
+            out.append(class_of_items(av, rx.flags, isinstance(rx.pattern, bytes), 256))
+        elif op is sre_c.LITERAL:
+            out.append({av})
+        elif op is sre_c.ANY:
+            out.append(set(range(256)))
+        else:
+            return None
+    return out
+
+
+def _group_alternatives(rx: RegexConst, group: int):
+    res = []
+
+    def rec(seq):
+        for op, av in seq:
+            if op is sre_c.SUBPATTERN:
+                if av[0] == group:
+                    res.append(list(av[3]))
+                rec(av[3])
+            elif op in (sre_c.MAX_REPEAT, sre_c.MIN_REPEAT):
+                rec(av[2])
+            elif op is sre_c.BRANCH:
+                for b in av[1]:
+                    rec(b)
+
+    rec(rx.parsed())
+    if len(res) != 1:
+        return None
+    body = res[0]
+    if len(body) == 1 and body[0][0] is sre_c.BRANCH:
+        return [list(b) for b in body[0][1][1]]
+    return [body]
+
+
+def role_octal_escape(a: A, s: Site, e: str) -> Verdict:
+    call = s.node
+    if s.kind == "int" and e == "ValueError" and isinstance(call, ast.Call) and len(call.args) == 2 and const_int(call.args[1]) == 8:
+        x = call.args[0]
+    elif s.kind == "to_bytes" and e == "OverflowError" and isinstance(call, ast.Call) and const_int(astq.arg_or_kw(call, 0, "length")) == 1:
+        src = call.func.value  # type: ignore[attr-defined]
+        node0 = a.flow.node(s.func, call)
+        if isinstance(src, ast.Name) and node0 is not None:
+            ds = list(a.flow.rd(s.func).reaching(node0, src.id))
+            src = ds[0].value if len(ds) == 1 and ds[0].kind in ("assign", "walrus") and ds[0].index is None else None
+        if not (isinstance(src, ast.Call) and dotted(src.func) == "int" and len(src.args) == 2 and const_int(src.args[1]) == 8):
+            return None
+        x = src.args[0]
+    else:
+        return None
+    fi = s.func
+    node = a.flow.node(fi, call)
+    # x is group k of a match of regex R
+    grp = x
+    if isinstance(x, ast.Name):
+        ds = list(a.flow.rd(fi).reaching(node, x.id))
+        if not ds or not all(d.kind in ("assign", "walrus") and d.index is None and d.value is not None for d in ds) or len({norm(d.value) for d in ds}) != 1:
+            return None
+        grp = ds[0].value
+        gnode = ds[0].node
+    else:
+        gnode = node
+    if not (isinstance(grp, ast.Call) and isinstance(grp.func, ast.Attribute) and grp.func.attr == "group" and len(grp.args) == 1 and const_int(grp.args[0])):
+        return None
+    k = const_int(grp.args[0])
+    rx = a.flow.regex_of_match(fi, grp.func.value, gnode)
+    if rx is None:
+        return None
+    alts = _group_alternatives(rx, k)
+    if alts is None:
+        raise AnalysisError(f"C07 octal escape: group {k} of {rx.pattern!r} not understood")
+    # a dominating length test excludes the single-character alternative(s)
+    multi = a.flow.minlen(fi, x, node) >= 2 or a.flow.holds(fi, node, lambda at: at.op == "eq" and not at.truth and any(isinstance(p, ast.Call) and dotted(p.func) == "len" and len(p.args) == 1 and norm(p.args[0]) == norm(x) and const_int(q) == 1 for p, q in ((at.a, at.b), (at.b, at.a)))) is not None
+    octal = set(b"01234567")
+    bad = []
+    for alt in alts:
+        cl = _alt_classes(alt, rx)
+        if cl is not None and len(cl) == 1 and multi:
+            continue
+        if cl is None or not cl or len(cl) > 3 or not all(c <= octal for c in cl) or (len(cl) == 3 and not cl[0] <= set(b"0123")):
+            bad.append(alt)
+    ok = not bad
+    pat = rx.pattern if isinstance(rx.pattern, str) else rx.pattern.decode("latin1")
+    return ok, f"operand is group {k} of {pat!r}; single-character alternative excluded by a length test: {bool(multi)}; every other alternative is 1-3 octal digits below 0o400: {ok}"
+
+
+# ---------------------------------------------------------------------
+# ASCII bytes
+
+
+def _ascii_bytes(a: A, fi: FuncInfo, e: ast.AST, node, st: St = St(), depth: int = 0) -> bool:
+    if depth > 12:
+        return False
+    if isinstance(e, ast.Constant):
+        return isinstance(e.value, bytes) and all(c < 128 for c in e.value)
+    if isinstance(e, ast.Call) and isinstance(e.func, ast.Attribute):
+        m = e.func.attr
+        if m == "encode" and astq.const_str(astq.arg_or_kw(e, 0, "encoding") or ast.Constant("utf-8")) in ("ascii", "us-ascii"):
+            return True
+        if m in ("split", "rsplit", "strip", "lstrip", "rstrip", "lower", "upper", "partition", "rpartition", "splitlines"):
+            return _ascii_bytes(a, fi, e.func.value, node, st, depth + 1)
+        return False
+    if isinstance(e, ast.Call) and dotted(e.func) in ("bytes", "bytearray", "memoryview") and len(e.args) == 1:
+        return _ascii_bytes(a, fi, e.args[0], node, st, depth + 1)
+    if isinstance(e, ast.Subscript):
+        return _ascii_bytes(a, fi, e.value, node, st, depth + 1)
+    if isinstance(e, ast.Name):
+        cb = a.flow._comp_binding(fi, e) if hasattr(e, "_parent") else None
+        if cb is not None:
+            return _ascii_bytes(a, fi, cb[0].iter, node, st, depth + 1)
+        if node is None:
+            return False
+        defs = a.flow.rd(fi).reaching(node, e.id)
+        if not defs:
+            return False
+        for d in defs:
+            if d.kind in ("assign", "walrus", "unpack", "for") and d.value is not None:
+                if not _ascii_bytes(a, fi, d.value, d.node, st, depth + 1):
+                    return False
+            elif d.kind == "param":
+                srcs = a.flow.param_sources(fi, d.name, st)
+                if srcs is None:
+                    return False
+                for f2, x, n2, s2 in srcs:
+                    if not _ascii_bytes(a, f2, x, n2, s2, depth + 1):
+                        return False
+            else:
+                return False
+        return True
+    return False
+
+
+def role_ascii_decode(a: A, s: Site, e: str) -> Verdict:
+    if s.kind != "decode" or e != "UnicodeDecodeError" or not isinstance(s.node, ast.Call):
+        return None
+    if astq.const_str(astq.arg_or_kw(s.node, 0, "encoding") or ast.Constant("utf-8")) not in ("ascii", "us-ascii"):
+        return None
+    node = a.flow.node(s.func, s.node)
+    if _ascii_bytes(a, s.func, s.node.func.value, node):  # type: ignore[attr-defined]
+        return True, "the receiver is (a piece of) the result of <str>.encode('ascii') on every definition that reaches it, across the call boundary: ASCII bytes decode as ASCII"
+    return None
+
+
+# ---------------------------------------------------------------------
+# constructor validation already done by the parser
+
+
+class _Facts:
+    """must-facts along one path: structured canonical atoms, killed when a name they mention is rebound."""
+
+    def __init__(self, d=None):
+        self.d: dict[tuple[str, str, str], tuple[bool, frozenset]] = dict(d or {})
+
+    def copy(self) -> "_Facts":
+        return _Facts(self.d)
+
+    def add(self, op: str, x: ast.AST, y: ast.AST | None, truth: bool) -> None:
+        k = (op, norm(x), norm(y) if y is not None else "")
+        names = frozenset(astq.names_in(x) | (astq.names_in(y) if y is not None else set()))
+        self.d[k] = (truth, names)
+        self._close()
+
+    def _close(self) -> None:
+        # X >= Y and Y >= 0  =>  X >= 0
+        changed = True
+        while changed:
+            changed = False
+            for (op, x, y), (tr, nm) in list(self.d.items()):
+                if op == "lt" and not tr and y != "0":
+                    z = self.d.get(("lt", y, "0"))
+                    if z is not None and not z[0] and ("lt", x, "0") not in self.d:
+                        self.d[("lt", x, "0")] = (False, frozenset(astq.names_in(ast.parse(x, mode="eval").body)))
+                        changed = True
+
+    def kill(self, name: str) -> None:
+        for k in [k for k, (_, nm) in self.d.items() if name in nm]:
+            del self.d[k]
+
+    def known(self, op: str, x: ast.AST, y: ast.AST | None) -> bool | None:
+        v = self.d.get((op, norm(x), norm(y) if y is not None else ""))
+        return v[0] if v is not None else None
+
+
+def _int_valued(a: A, fi: FuncInfo, v: ast.AST) -> bool:
+    """v evaluates to an int (never None): int constant, arithmetic on such, a call of a function annotated -> int."""
+    if const_int(v) is not None:
+        return True
+    if isinstance(v, ast.BinOp) and isinstance(v.op, (ast.Add, ast.Sub, ast.Mult)):
+        return _int_valued(a, fi, v.left) and _int_valued(a, fi, v.right)
+    if isinstance(v, ast.Call):
+        if dotted(v.func) in ("int", "len"):
+            return True
+        for g in a.flow.resolve_callee(fi, v):
+            r = getattr(g.node, "returns", None)
+            if r is not None and norm(r) == "int":
+                return True
+    return False
+
+
+def _paths_to(a: A, fi: FuncInfo, goal, start_nodes) -> list[_Facts]:
+    """fact sets of all acyclic paths start -> goal (exceptional edges included; a test whose atom the facts decide is
+    followed only along the decided edge)."""
+    cfg = cfg_of(fi)
+    rd = a.flow.rd(fi)
+    can = cfg.reach  # noqa
+    # nodes from which goal is reachable (prune)
+    useful = set()
+    for n in cfg.nodes:
+        if goal.id in cfg.reach(n):
+            useful.add(n.id)
+    out: list[_Facts] = []
+    stack = [(s, _Facts(), frozenset()) for s in start_nodes]
+    steps = 0
+    while stack:
+        n, facts, seen = stack.pop()
+        steps += 1
+        if steps > 20000:
+            raise AnalysisError(f"C07: too many paths in {fi.qualname}")
+        if n.id not in useful or n.id in seen:
+            continue
+        if n is goal:
+            out.append(facts)
+            continue
+        seen2 = seen | {n.id}
+        if n.kind == "test":
+            ats = satoms(n.ast, True)
+            decided = None
+            if len(ats) == 1:
+                op, x, y, tr = ats[0]
+                kv = facts.known(op, x, y)
+                if kv is not None:
+                    decided = "T" if kv == tr else "F"
+            for s_, lab in n.succs:
+                if lab in ("T", "F"):
+                    if decided is not None and lab != decided:
+                        continue
+                    f2 = facts.copy()
+                    for d in rd.gen.get(n.id, []):  # walrus in the test
+                        f2.kill(d.name)
+                    for op, x, y, tr in satoms(n.ast, lab == "T"):
+                        f2.add(op, x, y, tr)
+                    stack.append((s_, f2, seen2))
+                else:
+                    stack.append((s_, facts.copy(), seen2))
+            continue
+        for s_, lab in n.succs:
+            f2 = facts.copy()
+            if lab != "exc":
+                for d in rd.gen.get(n.id, []):
+                    f2.kill(d.name)
+                for d in rd.gen.get(n.id, []):
+                    if d.kind in ("assign", "walrus") and d.index is None and d.value is not None and isinstance(d.target, ast.Name):
+                        if astq.is_none(d.value):
+                            f2.add("is", d.target, ast.Constant(None), True)
+                        elif _int_valued(a, fi, d.value):
+                            f2.add("is", d.target, ast.Constant(None), False)
+                            c = const_int(d.value)
+                            if c is not None:
+                                f2.add("lt", d.target, ast.Constant(0), c < 0)
+            stack.append((s_, f2, seen2))
+    return out
+
+
+def role_range_constructor(a: A, s: Site, e: str) -> Verdict:
+    """raise in the __init__ of the class parse_range_header instantiates: the parser's own checks exclude it."""
+    if s.kind != "raise" or e != "ValueError" or s.func.cls is None or s.func.name != "__init__":
+        return None
+    prh = a.repo.try_func("http.parse_range_header")
+    if prh is None:
+        return None
+    cons = []
+    for r in astq.returns_of(prh.node):
+        if isinstance(r.value, ast.Call):
+            li = prh.module.local_imports(prh.node)
+            try:
+                tg = a.eff._resolve_call(prh, r.value, li, None)
+            except Exception:
+                tg = []
+            if any(g is s.func for g in tg):
+                cons.append(r.value)
+    if not cons:
+        return None
+    init = s.func
+    loop = astq.enclosing(s.node, (ast.For,))
+    if not (isinstance(loop, ast.For) and isinstance(loop.target, ast.Tuple) and len(loop.target.elts) == 2 and all(isinstance(x, ast.Name) for x in loop.target.elts) and isinstance(loop.iter, ast.Name) and loop.iter.id in init.params):
+        raise AnalysisError(f"C07 range constructor: the validation in {init.qualname} is not a `for a, b in <parameter>` loop")
+    n0, n1 = (x.id for x in loop.target.elts)
+    icfg = cfg_of(init)
+    lhead = icfg.by_ast.get(id(loop), [None])[0]
+    body0 = icfg.succ(lhead, "T") if lhead is not None else []
+    raise_node = icfg.node_of(s.node)
+    if not body0 or raise_node is None:
+        raise AnalysisError(f"C07 range constructor: no CFG for the validation loop of {init.qualname}")
+    pcfg = cfg_of(prh)
+    facts_txt = []
+    npaths = 0
+    for c in cons:
+        b = a.flow.bind(init, c, loop.iter.id)
+        if b is None or b[0] != "arg" or not isinstance(b[1], ast.Name):
+            raise AnalysisError("C07 range constructor: the list handed to the constructor is not a local name")
+        lname = b[1].id
+        producers = []
+        for n in walk_no_nested(prh.node):
+            if isinstance(n, ast.Call) and isinstance(n.func, ast.Attribute) and isinstance(n.func.value, ast.Name) and n.func.value.id == lname:
+                if n.func.attr == "append" and len(n.args) == 1 and isinstance(n.args[0], ast.Tuple) and len(n.args[0].elts) == 2 and all(isinstance(x, ast.Name) for x in n.args[0].elts):
+                    producers.append(n)
+                elif n.func.attr in ("append", "extend", "insert", "__setitem__", "__iadd__"):
+                    raise AnalysisError(f"C07 range constructor: `{norm(n)}` adds to the list in a shape that is not understood")
+        lst_defs = [v for _, v in astq.assigns_to(prh.node, lname)]
+        if not producers or not lst_defs or not all(isinstance(v, ast.List) and not v.elts for v in lst_defs):
+            raise AnalysisError(f"C07 range constructor: `{lname}` is not an empty list filled by .append((a, b))")
+        for p in producers:
+            goal = pcfg.node_of(p)
+            lp = astq.enclosing(p, (ast.For, ast.While))
+            if isinstance(lp, ast.For):
+                h = pcfg.by_ast.get(id(lp), [None])[0]
+                starts = pcfg.succ(h, "T")
+            elif lp is None:
+                starts = [s_ for s_, _ in pcfg.entry.succs]
+            else:
+                raise AnalysisError("C07 range constructor: the append sits in a while loop")
+            bn, en = (x.id for x in p.args[0].elts)
+            for facts in _paths_to(a, prh, goal, starts):
+                npaths += 1
+                valmap: dict[str, bool] = {}
+                for (op, x, y), (tr, _) in facts.d.items():
+                    xe = _rename2(x, {bn: n0, en: n1})
+                    ye = _rename2(y, {bn: n0, en: n1}) if y else None
+                    if xe is None or (y and ye is None):
+                        continue
+                    txt = {"is": f"({xe}) is ({ye})", "eq": f"({xe}) == ({ye})", "lt": f"({xe}) < ({ye})", "in": f"({xe}) in ({ye})", "truthy": f"({xe})"}[op]
+                    k, pol = canon(ast.parse(txt, mode="eval").body)
+                    valmap[k] = tr == pol
+                outs = []
+                for st0 in body0:
+                    outs.extend(simulate(icfg, lambda k, v=valmap: v.get(k), start=st0))
+                hit = [o for o in outs if o.kind == "raise" and o.node is raise_node]
+                if hit:
+                    known = sorted(f"{k}:{'T' if v else 'F'}" for k, v in valmap.items() if n0 in k or n1 in k)
+                    return False, f"a path of {prh.qualname} reaches `{norm(p)}` knowing only {known}, which does not exclude the constructor's raise"
+    return True, f"on each of the {npaths} path(s) of {prh.qualname} to an append, the facts established about the pair (tests passed after the last rebinding of its names) exclude this raise when the constructor's validation is replayed under them"
+
+
+def _rename2(txt: str, mp: dict[str, str]) -> str | None:
+    """rename the parser's pair names to the constructor's loop targets; any other name that collides is set aside."""
+    try:
+        e = ast.parse(txt, mode="eval").body
+    except SyntaxError:
+        return None
+
+    class T(ast.NodeTransformer):
+        def visit_Name(self, n):  # noqa: N802
+            if n.id in mp:
+                new = mp[n.id]
+            elif n.id in mp.values():
+                new = "_other_" + n.id
+            else:
+                new = n.id
+            return ast.copy_location(ast.Name(new, n.ctx), n)
+
+    return ast.unparse(T().visit(e))
+
+
+def role_validated_constructor(a: A, s: Site, e: str) -> Verdict:
+    """assert <pred>(params...) in a method reached from a constructor call that sits under the same predicate."""
+    if s.kind != "assert" or e != "AssertionError" or s.func.cls is None:
+        return None
+    test = s.node.test  # type: ignore[attr-defined]
+    if not (isinstance(test, ast.Call) and all(isinstance(x, ast.Name) and x.id in s.func.params for x in test.args) and not test.keywords and dotted(test.func)):
+        return None
+    pred = dotted(test.func).rsplit(".", 1)[-1]  # type: ignore[union-attr]
+    pnames = [x.id for x in test.args]  # type: ignore[union-attr]
+    facts = []
+    ok = True
+    work = [(s.func, pnames, 0)]
+    tops = 0
+    while work:
+        g, names, depth = work.pop()
+        cal = a.flow.callers(g)
+        if not cal:
+            return None
+        for f, n, kind in cal:
+            if kind != "call":
+                return None
+            args = []
+            for p in names:
+                b = a.flow.bind(g, n, p)
+                if b is None:
+                    return None
+                args.append(b[1])
+            if f.cls is g.cls and f.name == "__init__" and all(isinstance(x, ast.Name) and x.id in f.params for x in args) and depth < 2:
+                work.append((f, [x.id for x in args], depth + 1))  # type: ignore[union-attr]
+                continue
+            tops += 1
+            nn = cfg_of(f).node_of(n)
+            want = [norm(x) for x in args]
+            hit = a.flow.holds(f, nn, lambda at: at.op == "truthy" and at.truth and isinstance(at.a, ast.Call) and (dotted(at.a.func) or "").rsplit(".", 1)[-1] == pred and [norm(x) for x in at.a.args] == want and not at.a.keywords)
+            facts.append(f"{f.qualname}: `{norm(n)[:60]}` under {pred}({', '.join(want)}): {hit is not None}")
+            ok = ok and hit is not None
+    if not tops:
+        return None
+    return ok, "every construction on the request path sits under the same predicate: " + "; ".join(facts)
+
+
+ROLES: list[tuple[str, t.Callable[[A, Site, str], Verdict]]] = [
+    ("input-model latin-1 text", role_latin1_input),
+    ("application flag", role_shallow_flag),
+    ("abstract method", role_abstract_method),
+    ("application's own value", role_application_value),
+    ("accept pair", role_accept_pair),
+    ("fallback search", role_fallback_search),
+    ("regex-matched number", role_regex_number),
+    ("octal escape", role_octal_escape),
+    ("ascii bytes", role_ascii_decode),
+    ("range constructor", role_range_constructor),
+    ("validated constructor", role_validated_constructor),
+]
+
+
+def review(a: A, s: Site, e: str) -> tuple[str, bool, str] | None:
+    for name, fn in ROLES:
+        v = fn(a, s, e)
+        if v is not None:
+            return name, v[0], v[1]
+    return None
+
+
+# ---------------------------------------------------------------------
+# form parser silent mode (not a site role: it makes a re-raise dead)
 
 
 def p_form_parser_silent(ctx, folder):
     f = ctx.repo.func("formparser.FormDataParser.parse")
     tr = [n for n in ast.walk(f.node) if isinstance(n, ast.Try)]
     ok_h = False
+    guard_txt = None
+    sn = f.params[0]
     for t_ in tr:
         for h in t_.handlers:
             if (dotted(h.type) or "") == "ValueError":
                 rer = [x for x in ast.walk(h) if isinstance(x, ast.Raise)]
-                ok_h = all(x.exc is None and isinstance(astq.parent(x), ast.If) and norm(astq.parent(x).test) == "not self.silent" for x in rer) and len(rer) >= 1
+                good = bool(rer)
+                for x in rer:
+                    p = astq.parent(x)
+                    if not (x.exc is None and isinstance(p, ast.If) and any(x is y for y in p.body)):
+                        good = False
+                        continue
+                    k, pol = canon(p.test)
+                    if (k, pol) != (f"{sn}.silent", False):
+                        good = False
+                    else:
+                        guard_txt = norm(p.test)
+                ok_h = good
     init = ctx.repo.func("formparser.FormDataParser.__init__")
     a = init.node.args
     names = [x.arg for x in a.args]
@@ -300,78 +1002,9 @@ def p_form_parser_silent(ctx, folder):
     if "silent" in names:
         i = names.index("silent") - (len(names) - len(a.defaults))
         dflt = norm(a.defaults[i]) if i >= 0 else None
-    stored = any(isinstance(s_, ast.Assign) and norm(s_) == "self.silent = silent" for s_ in ast.walk(init.node))
+    stored = any(isinstance(s_, ast.Assign) and any(astq.is_self_attr(tg, "silent", init.params[0]) for tg in s_.targets) and isinstance(s_.value, ast.Name) and s_.value.id == "silent" for s_ in ast.walk(init.node))
     mk = ctx.repo.func("wrappers.request.Request.make_form_data_parser")
     passes = any(kw.arg == "silent" or kw.arg is None for c in astq.calls(mk.node) for kw in c.keywords)
     writes = [fn.fq for fn in ctx.repo.all_functions() if fn.fq != init.fq and any(isinstance(s_, (ast.Assign, ast.AugAssign)) and any(isinstance(t2, ast.Attribute) and t2.attr == "silent" for t2 in (s_.targets if isinstance(s_, ast.Assign) else [s_.target])) for s_ in ast.walk(fn.node))]
     ok = ok_h and dflt == "True" and stored and not passes and not writes
-    return ok, f"handler re-raises only under `not self.silent`: {ok_h}; default silent={dflt}; stored: {stored}; Request.make_form_data_parser passes silent: {passes}; other writers of .silent: {writes}"
-
-
-def p_next_event_progress(ctx, folder):
-    f = ctx.repo.func("sansio.multipart.MultipartDecoder.next_event")
-    cfg = cfg_of(f)
-    evs = [n for n in cfg.nodes if isinstance(n.ast, ast.Assign) and norm(n.ast.targets[0]) == "event" and isinstance(n.ast.value, ast.Call)]
-    ok = bool(evs)
-    facts = []
-    for n in evs:
-        body = _stmt_list(n.ast)
-        prog = any(isinstance(s_, ast.Delete) and "self.buffer" in norm(s_) for s_ in (body or [])) or any(isinstance(s_, ast.Assign) and norm(s_.targets[0]) == "self.state" for s_ in (body or []))
-        # nested (if filename is not None: event = File(...)): look one level up as well
-        if not prog:
-            up = astq.parent(astq.parent(n.ast)) if astq.parent(n.ast) is not None else None
-            body2 = _stmt_list(astq.parent(n.ast)) if astq.parent(n.ast) is not None else None
-            prog = any(isinstance(s_, ast.Delete) and "self.buffer" in norm(s_) for s_ in (body2 or [])) or any(isinstance(s_, ast.Assign) and norm(s_.targets[0]) == "self.state" for s_ in (body2 or []))
-        facts.append(f"L{n.lineno} {norm(n.ast.value.func)}: {prog}")
-        ok = ok and prog
-    return ok, "event construction accompanied by a buffer deletion / state change: " + ", ".join(facts)
-
-
-def _stmt_list(node):
-    p = astq.parent(node)
-    if p is None:
-        return None
-    for fld in ("body", "orelse", "finalbody"):
-        lst = getattr(p, fld, None)
-        if isinstance(lst, list) and any(x is node for x in lst):
-            return lst
-    return None
-
-
-def p_chunk_iter_breaks(ctx, folder):
-    f = ctx.repo.func("formparser._chunk_iter")
-    w = [n for n in ast.walk(f.node) if isinstance(n, ast.While)]
-    ok = len(w) == 1 and any(isinstance(n, ast.If) and norm(n.test) == "not data" and any(isinstance(s_, ast.Break) for s_ in n.body) for n in ast.walk(w[0])) and any(isinstance(s_, ast.Assign) and norm(s_) == "data = read(size)" for s_ in ast.walk(w[0]))
-    return ok, f"loop reads `data = read(size)` and breaks on an empty read: {ok}"
-
-
-PREMISES = {
-    "form_parser_silent": p_form_parser_silent,
-    "next_event_progress": p_next_event_progress,
-    "chunk_iter_breaks_on_empty": p_chunk_iter_breaks,
-    "param_key_min1": p_param_key_min1,
-    "param_value_min1": p_param_value_min1,
-    "options_key_nonempty": p_options_key_nonempty,
-    "q_regex_decimal": p_q_regex_decimal,
-    "csp_space_guard": p_csp_space_guard,
-    "unslash_octal_below_256": p_unslash_octal,
-    "range_parser_validates": p_range_parser_validates,
-    "content_range_parser_validates": p_content_range_parser_validates,
-    "idna_data_is_ascii": p_idna_data_is_ascii,
-    "get_host_colon_guard": p_get_host_colon_guard,
-    "stream_shallow_guard": p_stream_shallow_guard,
-    "mime_item_checked_first": p_mime_item_checked_first,
-    "lookup_overridden": p_lookup_overridden,
-    "language_fallback_same_split": p_language_fallback_same_split,
-    "etag_regex_tail": p_etag_regex_tail,
-}
-
-
-def check_premise(ctx, folder, name: str):
-    fn = PREMISES.get(name)
-    if fn is None:
-        return False, f"unknown premise {name}"
-    try:
-        return fn(ctx, folder)
-    except Exception as e:  # a premise that cannot be evaluated does not hold
-        return False, f"premise could not be evaluated: {type(e).__name__}: {e}"
+    return ok, guard_txt, f"handler re-raises only when self.silent is false: {ok_h}; default silent={dflt}; stored: {stored}; Request.make_form_data_parser passes silent: {passes}; other writers of .silent: {writes}"
